@@ -21,6 +21,7 @@ def run(fb, rep, tier, cfg):
     e11.r11a(fb, rep)
     e11.r11c(fb, rep)
     e11.r11d(fb, rep)
+    e11.r11e(fb, rep)
     from . import c08
     c08.e13b(fb, rep)
     # strict `let`: the always-on dead-code pass must keep every binding whose evaluation contains a call (shared with C04)
